@@ -651,11 +651,100 @@ def _unroll_in_list(stmts: List[ast.stmt]) -> int:
     return n
 
 
+def _unroll_name_loops(stmts: List[ast.stmt]) -> int:
+    """`for p in (self.A, self.B): v = getattr(self, p); if v: ret[p] = v`  ->  the body once per element, the loop-local
+    temporary bound first to a pure expression put back (a table of constant-like elements: literals / UPPER_CASE attributes)."""
+    n = 0
+    i = 0
+    while i < len(stmts):
+        s = stmts[i]
+        if isinstance(s, (ast.FunctionDef, ast.AsyncFunctionDef, ast.ClassDef)):
+            i += 1
+            continue
+        for fld in ("body", "orelse", "finalbody"):
+            sub = getattr(s, fld, None)
+            if isinstance(sub, list) and sub and isinstance(sub[0], ast.stmt):
+                n += _unroll_name_loops(sub)
+        if isinstance(s, ast.Try):
+            for h in s.handlers:
+                n += _unroll_name_loops(h.body)
+
+        def const_like(e):
+            return (isinstance(e, ast.Constant) and isinstance(e.value, str)) or (isinstance(e, ast.Attribute) and e.attr.isupper() and isinstance(e.value, ast.Name) and e.value.id in ("self", "cls"))
+
+        if isinstance(s, ast.For) and not s.orelse and isinstance(s.target, ast.Name) and isinstance(s.iter, (ast.Tuple, ast.List)) and 2 <= len(s.iter.elts) <= 16 and all(const_like(e) for e in s.iter.elts):
+            body = _fold_guard_continues(list(s.body))
+            nodes = [x for st in body for x in ast.walk(st)]
+            simple = not any(isinstance(x, (ast.Break, ast.Continue, ast.Return, ast.Yield, ast.YieldFrom, ast.FunctionDef, ast.Lambda)) for x in nodes)
+            stores_t = any(isinstance(x, ast.Name) and x.id == s.target.id and not isinstance(x.ctx, ast.Load) for x in nodes)
+            if simple and not stores_t:
+                tmp = None
+                if body and isinstance(body[0], ast.Assign) and len(body[0].targets) == 1 and isinstance(body[0].targets[0], ast.Name) and isinstance(body[0].value, ast.Call) \
+                        and isinstance(body[0].value.func, ast.Name) and body[0].value.func.id == "getattr" and len(body[0].value.args) == 2 and not body[0].value.keywords:
+                    nm = body[0].targets[0].id
+                    later = [x for st in body[1:] for x in ast.walk(st) if isinstance(x, ast.Name) and x.id == nm]
+                    outside = [x for st in stmts[i + 1:] for x in ast.walk(st) if isinstance(x, ast.Name) and x.id == nm]
+                    if later and all(isinstance(x.ctx, ast.Load) for x in later) and not outside:
+                        tmp = (nm, body[0].value)
+                        body = body[1:]
+                out: List[ast.stmt] = []
+                for e in s.iter.elts:
+                    mp = {s.target.id: e}
+                    for st in body:
+                        st2 = copy.deepcopy(st)
+                        if tmp is not None:
+                            st2 = _SubstNames({tmp[0]: tmp[1]}).visit(st2)
+                        new = _SubstNames(mp).visit(st2)
+                        ast.copy_location(new, e)
+                        ast.fix_missing_locations(new)
+                        out.append(new)
+                stmts[i:i + 1] = out
+                n += 1
+                i += len(out)
+                continue
+        i += 1
+    return n
+
+
+def fold_const_getattr(tree: ast.Module) -> int:
+    """`getattr(self, self.PARAM_ETAG)` with `PARAM_ETAG = "etag"` a class-level string constant  ->  `self.etag`"""
+    n = 0
+    for cls in ast.walk(tree):
+        if not isinstance(cls, ast.ClassDef):
+            continue
+        consts = {}
+        for st in cls.body:
+            tg = st.targets[0] if isinstance(st, ast.Assign) and len(st.targets) == 1 else (st.target if isinstance(st, ast.AnnAssign) else None)
+            v = getattr(st, "value", None)
+            if isinstance(tg, ast.Name) and isinstance(v, ast.Constant) and isinstance(v.value, str) and v.value.isidentifier():
+                consts[tg.id] = v.value
+        if not consts:
+            continue
+
+        class R(ast.NodeTransformer):
+            def visit_Call(self, c):
+                nonlocal n
+                self.generic_visit(c)
+                if isinstance(c.func, ast.Name) and c.func.id == "getattr" and len(c.args) == 2 and not c.keywords and isinstance(c.args[0], ast.Name) and c.args[0].id in ("self", "cls") \
+                        and isinstance(c.args[1], ast.Attribute) and isinstance(c.args[1].value, ast.Name) and c.args[1].value.id in ("self", "cls") and c.args[1].attr in consts:
+                    n += 1
+                    return ast.copy_location(ast.Attribute(value=c.args[0], attr=consts[c.args[1].attr], ctx=ast.Load()), c)
+                return c
+
+        for m in cls.body:
+            if isinstance(m, (ast.FunctionDef, ast.AsyncFunctionDef)):
+                R().visit(m)
+                ast.fix_missing_locations(m)
+    return n
+
+
 def unroll_table_loops(tree: ast.Module) -> int:
     total = 0
     for fn in ast.walk(tree):
         if isinstance(fn, (ast.FunctionDef, ast.AsyncFunctionDef)):
             total += _unroll_in_list(fn.body)
+            total += _unroll_name_loops(fn.body)
+    total += fold_const_getattr(tree)
     return total
 
 
